@@ -40,7 +40,7 @@ def programs(draw: Any) -> Dict[str, Any]:
                               n_setup=draw(st.integers(0, 4)), stamp_setup=True, prio_range=(-1, 2),
                               # without the constant site marker, setup sites that take no input are roots of the
                               # graph: root selections (and setup nodes starved by them) become possible
-                              mark_roots=draw(st.booleans())))
+                              mark_roots=draw(st.booleans()), mutable_setup_rate=0.4))
 
 
 def _subset_flag(I: hist.Interp, ops: List[Dict[str, Any]]) -> bool:
